@@ -29,12 +29,31 @@ def storm_script(rng, n, k):
     return {"config": cfg, "histories": hists}
 
 
+def hot_storm_script(rng, nhist, rounds, k):
+    """overlapping requests on a key that is ALREADY in use, window after window: the k requests of a round find the counter
+    anywhere below the share and race for the last places (a check-then-act gap in the counting shows as more passes than the
+    share in one window); the first-use storms above serialise on the creation of the per-key state and do not reach it."""
+    allowed = rng.choice([2, 3, 4])
+    w = rng.choice([2, 4])
+    cfg = {"groups": ["a", "b", "u"], "W": {"r1": w}, "Allowed": {"r1": allowed}, "Pct": {"r1": {"a": 100, "b": 50, "u": -1}},
+           "DefBehav": {"r1": "use_default"}, "DefPct": {"r1": 100}, "Status": {"r1": rng.choice([0, 503])}}
+    hists = []
+    for _ in range(nhist):
+        g = rng.choice(["a", "u"])
+        # one executor event = `rounds` rounds [pre sequential requests, k overlapping ones, next window] by goroutines that live
+        # for the whole event and leave a busy-wait barrier together; it is recorded as the batch / adv events of each round
+        hists.append([{"ev": "reset", "now": rng.randint(1, 9)},
+                      {"ev": "pstorm", "r": "r1", "g": g, "n": k, "rounds": rounds, "pre": rng.randint(0, allowed - 1), "d": w}])
+    return {"config": cfg, "histories": hists}
+
+
 def share_config(rng):
     """large allowed counts with arbitrary integer percentages (incl. those whose float product lands just off an integer):
     the share is reached only by bursts of many requests"""
     cfg = {"groups": ["a", "b", "u"], "W": {"r1": rng.choice([2, 4])}, "Allowed": {"r1": rng.choice([10, 25, 50, 75, 100, 100, 200])},
            "Pct": {"r1": {"a": rng.choice([7, 14, 28, 29, 55, 56, 57, 58, rng.randint(1, 99)]), "b": rng.randint(0, 100), "u": -1}},
-           "DefBehav": {"r1": rng.choice(["use_default", "allow", "block"])}, "DefPct": {"r1": rng.choice([0, 33, 100])}}
+           "DefBehav": {"r1": rng.choice(["use_default", "allow", "block"])}, "DefPct": {"r1": rng.choice([0, 33, 100])},
+           "Status": {"r1": rng.choice([0, 429, 503])}}
     return cfg
 
 
@@ -55,7 +74,8 @@ def class_configs():
     out = []
     for db in ("allow", "undefined", "block", "use_default"):
         out.append({"groups": ["a", "b", "u", "A", "a "], "W": {"r1": 2}, "Allowed": {"r1": 2},
-                    "Pct": {"r1": {"a": 0, "b": 50, "u": -1, "A": -1, "a ": -1}}, "DefBehav": {"r1": db}, "DefPct": {"r1": 50}})
+                    "Pct": {"r1": {"a": 0, "b": 50, "u": -1, "A": -1, "a ": -1}}, "DefBehav": {"r1": db}, "DefPct": {"r1": 50},
+                    "Status": {"r1": 503}})     # every rejection - over the share, 0 % share, unlisted group - carries the configured status
     return out
 
 
@@ -72,8 +92,9 @@ def class_history(rng, cfg):
 def rand_config(rng, thorough):
     rems = ["r1", "r2"][: rng.choice([1, 2, 2])]
     # group header values: two listed ones, an unknown one, and spelling variants of a listed one (distinct groups)
-    cfg = {"groups": ["a", "b", "u", "A", "a "], "W": {}, "Allowed": {}, "Pct": {}, "DefBehav": {}, "DefPct": {}}
+    cfg = {"groups": ["a", "b", "u", "A", "a "], "W": {}, "Allowed": {}, "Pct": {}, "DefBehav": {}, "DefPct": {}, "Status": {}}
     for r in rems:
+        cfg["Status"][r] = rng.choice([0, 0, 429, 503, 418])        # 0 = response_status_code not configured (429)
         cfg["W"][r] = rng.choice(WSIZES)
         cfg["Allowed"][r] = rng.choice([1, 2, 3] + ([4, 5] if thorough else []))
         cfg["DefBehav"][r] = rng.choice(["none", "allow", "block", "use_default", "use_default", "undefined"])
@@ -127,7 +148,10 @@ def script_of_history(hist):
             continue
         elif e["ev"] == "batch":
             conc = None
-            out.append({"ev": "storm" if e["g"].startswith("g") and e["g"][1:].isdigit() else "burst", "r": e["r"], "g": e["g"], "n": e["n"]})
+            out.append({"ev": e.get("kind") or ("storm" if e["g"].startswith("g") and e["g"][1:].isdigit() else "burst"),
+                        "r": e["r"], "g": e["g"], "n": e["n"]})
+        elif e.get("synthetic"):
+            continue            # the executor's report of an odd answer inside a batch: re-created by re-running the batch
         else:
             conc = None
             out.append({k: v for k, v in e.items() if k != "out"})
@@ -168,13 +192,13 @@ def execute(ctx, binary, scripts, tag):
     return [read_ndjson(os.path.join(d, "trace-%03d.ndjson" % i)) for i in range(len(scripts))]
 
 
-def judge(ctx, binary, traces, tag, seen_hist):
+def judge(ctx, binary, traces, tag, seen_hist, scripts=None):
     """validate recorded traces against ThrottleP; confirm each rejection by re-execution; report."""
     def one(it):
         i, ev = it
         return validate_history_trace(ctx, SPEC, "ThrottleTrace", ev, tag="%s%d" % (tag, i))
     res = parallel(one, list(enumerate(traces)), n=8)
-    for (acc, rejected, rounds), ev in zip(res, traces):
+    for ti, ((acc, rejected, rounds), ev) in enumerate(zip(res, traces)):
         cfg, hs = split_histories(ev)
         ctx.cov["traces_validated_against_impl"] += acc
         for h in hs:
@@ -196,7 +220,9 @@ def judge(ctx, binary, traces, tag, seen_hist):
                 a2, r2, _ = validate_history_trace(ctx, SPEC, "ThrottleTrace", t2, tag="%s-repro" % tag)
                 reproduced = bool(r2)
             else:
-                whole = [{"config": cfg, "histories": [script_of_history(h) for h in hs]}]
+                # the originating script itself where it is known (its events may be richer than what a recording shows:
+                # a pstorm is recorded as the bursts / storms / advances of its rounds)
+                whole = [scripts[ti]] if scripts else [{"config": cfg, "histories": [script_of_history(h) for h in hs]}]
                 for attempt in range(6):
                     t2 = execute(ctx, binary, whole if attempt else script, "%s-repro" % tag)[0]
                     a2, r2, _ = validate_history_trace(ctx, SPEC, "ThrottleTrace", t2, tag="%s-repro" % tag, max_rounds=1)
@@ -269,6 +295,8 @@ def run(ctx):
     # state evaluation 10x dearer and the validation ran into the time limit); the thorough tier runs ten such scripts
     for _ in range(1 if not T else 10):
         scripts.append(storm_script(ctx.rng, 3000, 8))
+    for _ in range(1 if not T else 10):
+        scripts.append(hot_storm_script(ctx.rng, 16, 120, 4))
     for cfg in class_configs():
         scripts.append({"config": cfg, "histories": [class_history(ctx.rng, cfg) for _ in range(3)]})
     for _ in range(8 if not T else 60):
@@ -276,7 +304,7 @@ def run(ctx):
         scripts.append({"config": cfg, "histories": [share_history(ctx.rng, cfg) for _ in range(2)]})
     traces = execute(ctx, binary, scripts, "rand")
     ctx.sample({"kind": "recorded-trace", "events": traces[0][:14]})
-    judge(ctx, binary, traces, "rand", seen)
+    judge(ctx, binary, traces, "rand", seen, scripts)
 
     # (4) binding self-test (thorough): a corrupted / truncated recording must be rejected
     if T:
